@@ -159,6 +159,9 @@ func (g *genCtx) wellFormedBody(id uint16, ver19 bool, phone []byte) []byte {
 			code = []byte("wrong-code")
 		}
 		if ver19 {
+			if r.chance(20) {
+				code = padStr(string(code), r.pick(32, 40, 64)) // fixed-width, zero-padded code field
+			}
 			b := []byte{byte(len(code))}
 			b = append(b, code...)
 			b = append(b, padStr("123456789012345", 15)...)
@@ -205,6 +208,9 @@ func (g *genCtx) wellFormedBody(id uint16, ver19 bool, phone []byte) []byte {
 		return attach1210Body(g.p.Svc.Dialect, "TERMID1", "ALARM-ID-0001", []UpFile{{Name: "a.jpg", Data: []byte{1, 2, 3}}})
 	case 0x1211, 0x1212:
 		name := "f" + fmt.Sprint(r.intn(100)) + ".bin"
+		if r.chance(15) {
+			name = "" // a zero-length name is a valid encoding
+		}
 		b := []byte{byte(len(name))}
 		b = append(b, name...)
 		b = append(b, byte(r.intn(5)))
